@@ -10,6 +10,7 @@ location           ["TH", ts] | ["IF", ts, field_id] | ["OF", ts, field_id] | ["
 stack              [location, ...]            (first = root, last = the location the request is about)
 expression         ["T", ts]                  a class / type hint passed as predicate
                    ["S", string]              a string passed as predicate
+                   ["R", pattern, flags]      re.compile(pattern, flags) passed as predicate; flags = letters of "IAXSM"
                    ["ANY"]                    P.ANY
                    ["P", base|None, [elem]]   P-chain; base = expression building a LocStackPattern that is extended
                    ["add", e1, e2]            e1 + e2
@@ -329,6 +330,28 @@ def ref_str(s, loc) -> Optional[bool]:
     return re.fullmatch(s, fid) is not None
 
 
+RE_FLAGS = {"I": re.IGNORECASE, "A": re.ASCII, "X": re.VERBOSE, "S": re.DOTALL, "M": re.MULTILINE}
+
+
+def re_flags(letters) -> int:
+    out = 0
+    for ch in letters:
+        out |= RE_FLAGS[ch]
+    return out
+
+
+@lru_cache(maxsize=None)
+def ref_re(pattern, flags, loc) -> Optional[bool]:
+    """A compiled pattern is the regex of rule 4 with the flags its author gave it: full match of the field id,
+    decided by plain ``re`` here in the harness."""
+    k = loc[0]
+    if k == "IFF":
+        return None
+    if k not in _FIELD_KINDS:
+        return False
+    return re.compile(pattern, re_flags(flags)).fullmatch(loc[2]) is not None
+
+
 @lru_cache(maxsize=None)
 def ref_atom(atom, loc) -> Optional[bool]:
     tag = atom[0]
@@ -336,6 +359,8 @@ def ref_atom(atom, loc) -> Optional[bool]:
         return ref_type(atom[1], loc[1])
     if tag == "S":
         return ref_str(atom[1], loc)
+    if tag == "R":
+        return ref_re(atom[1], atom[2], loc)
     if tag == "ANY":
         return True
     raise ValueError(atom)
@@ -344,6 +369,143 @@ def ref_atom(atom, loc) -> Optional[bool]:
 def type_kind(ts):
     ts = lst(ts)
     return CLASS_KIND[ts] if isinstance(ts, str) else "param"
+
+
+# ===================================================================================== field ids and regex grammar
+# "Any field_id must be a valid python identifier" (tutorial, rule 4) -- and python identifiers are not limited to
+# ASCII.  Only identifiers that are already NFKC-normalised are used as field ids: python normalises identifiers of a
+# class body, so any other spelling would not be the id the model really has.
+import keyword  # noqa: E402
+import unicodedata  # noqa: E402
+
+
+def is_safe_id(s: str) -> bool:
+    return (s.isidentifier() and unicodedata.normalize("NFKC", s) == s and not keyword.iskeyword(s)
+            and not s.startswith("_") and not s.endswith("_"))
+
+
+_SENSITIVE = re.compile(r"\\[wWdDsSbB]|\(\?[a-zA-Z]*i|\[\^")
+
+
+def regex_is_sensitive(s: str) -> bool:
+    """Label only: the regex uses a character-class escape, a word boundary, a negated set or case-insensitivity."""
+    return _SENSITIVE.search(s) is not None
+
+
+U_IDS_RAW = [
+    # Cyrillic (with ASCII digits / underscores / ASCII tails), two spellings differing in case only
+    "клиент_id", "Клиент_id", "номер_id", "сумма", "СУММА", "имя2", "ключ_2", "id_заказа",
+    # plain ASCII neighbours
+    "user_id", "USER_ID", "id", "a", "A", "a1", "ab",
+    # Latin letters with diacritics (precomposed = NFKC-stable), sharp s, dotless / dotted i
+    "größe", "GRÖSSE", "straße", "café", "CAFÉ", "naïve", "ñ", "ça", "ß", "\u0130d", "\u0131",
+    # Greek (final sigma), CJK, Devanagari (spacing vowel signs are not \w), combining mark without precomposed form
+    "αβγ", "ΑΒΓ", "σας", "ΣΑΣ", "δ1", "名前", "数_1", "日本語", "\u0928\u093e\u092e", "x\u0302y",
+    # a non-ASCII decimal digit (Nd: matched by \d in unicode mode only)
+    "a\u0661", "n\u0967",
+]
+U_IDS = [x for x in U_IDS_RAW if is_safe_id(x)]
+if len(U_IDS) != len(U_IDS_RAW):
+    raise env.HarnessError(f"C10: field id pool holds unusable ids: {[x for x in U_IDS_RAW if not is_safe_id(x)]}")
+
+
+class _Digits:
+    """Mixed-radix reader of one non-negative integer: the whole derivation is a pure function of (field id, code);
+    code 0 always takes option 0 (the plainest spelling), so cases shrink towards literals."""
+
+    def __init__(self, code):
+        self.c = code
+
+    def take(self, k):
+        self.c, r = divmod(self.c, k)
+        return r
+
+
+def _range_around(c):
+    lo, hi = chr(max(ord(c) - 2, 1)), chr(ord(c) + 3)
+    return f"[{re.escape(lo)}-{re.escape(hi)}]"
+
+
+def _char_class(c, d):
+    if c == "_":
+        opts = ["_", r"\w", "[_x]", r"[^\W\d]", ".", r"\S", r"[\W_]"]
+    elif c.isdecimal():
+        opts = [c, r"\d", r"\w", "[0-9]", ".", r"[^\D]", r"\S", _range_around(c)]
+    elif c.isalpha():
+        opts = [c, r"\w", r"[^\W\d_]", ".", _range_around(c), r"\S", f"(?i:{c.swapcase()})", r"\D", f"[{c}{c.swapcase()}]"]
+    else:   # marks: identifier characters that are not \w
+        opts = [c, ".", r"\S", r"\W", r"[^\w]"]
+    return opts[d.take(len(opts))]
+
+
+_ALTS = ["x", "id", r"\d+", "ключ", r"\w", "名"]
+
+
+def _segment(seg, d):  # noqa: C901, PLR0911
+    how = d.take(14)
+    n = len(seg)
+    wordy = all(c == "_" or c.isalnum() for c in seg)
+    if how in (0, 1):
+        return seg
+    if how in (2, 3):
+        return "".join(_char_class(c, d) for c in seg)
+    if how == 4:  # noqa: PLR2004
+        return (r"\w+", r"\w*", r"[\w]+", r"\w+?")[d.take(4)] if wordy else (".+", ".*")[d.take(2)]
+    if how == 5:  # noqa: PLR2004
+        k = (n, n, n + 1, max(n - 1, 0))[d.take(4)]
+        return (r"\w{%d}" % k, r".{%d}" % k, r"\w{%d,}" % k, r"\w{1,%d}" % max(k, 1))[d.take(4)]
+    if how == 6:  # noqa: PLR2004
+        return f"(?i:{seg.swapcase()})"
+    if how == 7:  # noqa: PLR2004
+        alt = _ALTS[d.take(len(_ALTS))]
+        return f"(?:{seg}|{alt})" if d.take(2) else f"(?:{alt}|{seg})"
+    if how == 8:  # noqa: PLR2004
+        return r"[^\W\d]+" if not any(c.isdecimal() for c in seg) and wordy else r"\S+"
+    if how == 9:  # noqa: PLR2004
+        return (".*", ".+", r"\D*", r"[^_]*")[d.take(4)]
+    if how == 10 and n >= 2:  # noqa: PLR2004
+        return seg[0] + (r"\B", r"\b", "", r"\B")[d.take(4)] + seg[1:]
+    if how == 11:  # noqa: PLR2004
+        return f"(?:{seg})" + ("?", "+", "{1}", "*")[d.take(4)]
+    if how == 12:  # noqa: PLR2004  -- near miss
+        return (r"\d+", r"\W+", r"\s*" + seg, seg + seg[-1] + "?", r"[a-z]+", r"[A-Za-z_]+")[d.take(6)]
+    return seg
+
+
+def derive_regex(fid: str, code: int, inline_flags=True) -> str:
+    """A regex derived from a field id by the small grammar the check explores: literal pieces, character classes
+    (\\w \\d \\s \\S \\W \\D . [..] ranges, negated sets), quantifiers, groups / alternation, word boundaries, anchors
+    and look-arounds inside, scoped and global case-insensitivity.  Mostly (not always) it still matches ``fid``;
+    whether it does is never assumed -- the oracle is ``re.fullmatch`` in the harness."""
+    d = _Digits(code)
+    deco = d.take(12)
+    src = fid.swapcase() if (deco == 1 and inline_flags) else fid
+    out = []
+    i = 0
+    while i < len(src):
+        k = 1 + d.take(min(4, len(src) - i))
+        out.append(_segment(src[i:i + k], d))
+        i += k
+    body = "".join(out)
+    if deco == 1 and inline_flags:
+        return "(?i)" + body
+    if deco == 2:  # noqa: PLR2004
+        return r"\b" + body + r"\b"
+    if deco == 3:  # noqa: PLR2004
+        return body + "|" + ("id", "сумма", r"\w+_id", r"\d\w*")[d.take(4)]
+    if deco == 4:  # noqa: PLR2004
+        return ("id", "ключ_2", r"\w{1,2}", r".*\d")[d.take(4)] + "|" + body
+    if deco == 5:  # noqa: PLR2004
+        return "^" + body + "$"
+    if deco == 6:  # noqa: PLR2004
+        return body + (r"(?<!_id)", r"(?<=\w)", r"(?<!\d)", r"(?<=[^\W\d])")[d.take(4)]
+    if deco == 7:  # noqa: PLR2004
+        return (r"(?=\w)", r"(?!\d)", r"(?=[^\W\d_])", r"(?!id)")[d.take(4)] + body
+    if deco == 8:  # noqa: PLR2004
+        return r"\b" + body
+    if deco == 9:  # noqa: PLR2004
+        return body + r"\b"
+    return body
 
 
 # ===================================================================================== expressions: shape
@@ -359,7 +521,7 @@ def attr_ok(name: str) -> bool:
 def kind(e) -> str:
     """What the built Python object is: 'raw' (class / hint / str), 'pat' (LocStackPattern), 'lsc' (checker)."""
     tag = e[0]
-    if tag in ("T", "S"):
+    if tag in ("T", "S", "R"):
         return "raw"
     if tag in ("ANY", "lsc"):
         return "lsc"
@@ -388,7 +550,7 @@ def elem_width(el) -> int:
 def width(e) -> int:
     """Number of trailing locations the expression looks at."""
     tag = e[0]
-    if tag in ("T", "S", "ANY"):
+    if tag in ("T", "S", "R", "ANY"):
         return 1
     if tag in ("lsc", "not"):
         return width(e[1])
@@ -431,6 +593,9 @@ def validate(e):  # noqa: C901, PLR0912
       exactly one location (width 1).  `P.c + (P[A].a | P[B].b)`, where a combined multi-location pattern is
       appended, is not given a meaning by the docs (and the code does not distribute it) -> not generated."""
     tag = e[0]
+    if tag == "R":
+        re.compile(e[1], re_flags(e[2]))   # an invalid pattern is a generator bug
+        return
     if tag in ("T", "S", "ANY"):
         return
     if tag == "lsc":
@@ -497,6 +662,12 @@ def features(e, out=None) -> set:
         out.add("T:" + type_kind(e[1]))
     elif tag == "S":
         out.add("S:ident" if e[1].isidentifier() else "S:regex")
+        if not e[1].isidentifier() and regex_is_sensitive(e[1]):
+            out.add("S:regex_class_or_case")
+        if not e[1].isascii():
+            out.add("S:nonascii")
+    elif tag == "R":
+        out.add("R:flags=" + (e[2] or "none"))
     elif tag == "ANY":
         out.add("ANY")
     elif tag in ("lsc", "not"):
@@ -534,7 +705,7 @@ def features(e, out=None) -> set:
 def max_chain(e) -> int:
     """Longest chain (number of consecutive locations constrained) anywhere in the expression."""
     tag = e[0]
-    if tag in ("T", "S", "ANY"):
+    if tag in ("T", "S", "R", "ANY"):
         return 1
     if tag in ("lsc", "not"):
         return max_chain(e[1])
@@ -563,6 +734,9 @@ def show(e) -> str:  # noqa: C901, PLR0911
         return ts_show(e[1])
     if tag == "S":
         return repr(e[1])
+    if tag == "R":
+        fl = " | ".join(f"re.{c}" for c in e[2])
+        return f"re.compile({e[1]!r}{', ' + fl if fl else ''})"
     if tag == "ANY":
         return "P.ANY"
     if tag == "lsc":
@@ -654,7 +828,7 @@ def compile_ref(e):  # noqa: C901
         at its position -- the only reading under which `(X | Y).n` is "`X.n` or `Y.n`" and `+` is associative.
     """
     tag = e[0]
-    if tag in ("T", "S", "ANY"):
+    if tag in ("T", "S", "R", "ANY"):
         atom = tup(e)
         return lambda s: ref_atom(atom, s[-1])
     if tag == "lsc":
@@ -722,6 +896,8 @@ def build(e, world):  # noqa: C901, PLR0911
         return world.real(e[1])
     if tag == "S":
         return e[1]
+    if tag == "R":
+        return re.compile(e[1], re_flags(e[2]))
     if tag == "ANY":
         return P.ANY
     if tag == "lsc":
@@ -782,7 +958,7 @@ def _elem_expr(el):
 def children(e, stack):  # noqa: C901
     """(sub-expression, stack it is evaluated on) pairs according to the reference semantics."""
     tag = e[0]
-    if tag in ("T", "S", "ANY"):
+    if tag in ("T", "S", "R", "ANY"):
         return []
     if tag in ("lsc", "not"):
         return [(e[1], stack)]
@@ -815,6 +991,8 @@ def node_sig(e, stack) -> str:
         return "T:" + type_kind(e[1])
     if tag == "S":
         return "S:ident" if e[1].isidentifier() else "S:regex"
+    if tag == "R":
+        return "R:compiled"
     if tag == "P":
         if e[1] is None and len(e[2]) == 1:
             el = e[2][0]
